@@ -29,6 +29,11 @@ edit('crates/oq3_parser/src/grammar/expressions.rs', "T!['['] if allow_calls => 
 edit('crates/oq3_syntax/src/syntax_error.rs', "        Self(message.into(), TextRange::empty(offset))", "        Self::new(message, TextRange::empty(offset))")
 edit('crates/oq3_syntax/src/ast/generated/nodes.rs', "pub struct Name {", "// (a comment)\npub struct Name {")
 edit('crates/oq3_semantics/src/syntax_to_semantics.rs', "            let num = int_num.value_u128().unwrap(); // fn value_u128 is kind of a hack\n            asg::IntLiteral::new(num, true).to_texpr() // `true` means positive literal.", "            let n128 = int_num.value_u128().unwrap();\n            asg::IntLiteral::new(n128, true).to_texpr()")
+# comments inside the functions whose pieces are copied into helpers (D37, D39, D40, D41), and a re-ordered pair of independent arms
+edit('crates/oq3_parser/src/lexed_str.rs', "            let token_text = &text[conv.offset..][..token.len as usize];", "            // the text of this token\n            let token_text = &text[conv.offset..][..token.len as usize];")
+edit('crates/oq3_syntax/src/parsing.rs', "        oq3_parser::StrStep::Exit => builder.finish_node(),", "        // leave the node\n        oq3_parser::StrStep::Exit => builder.finish_node(),")
+edit('crates/oq3_source_file/src/source_file.rs', "                .any(|inclusion| inclusion.have_syntax_errors())", "                // ask every included file\n                .any(|inclusion| inclusion.have_syntax_errors())")
+edit('crates/oq3_syntax/src/ast/expr_ext.rs', "                T![||] => BinaryOp::LogicOp(LogicOp::Or),\n                T![&&] => BinaryOp::LogicOp(LogicOp::And),", "                T![&&] => BinaryOp::LogicOp(LogicOp::And),\n                T![||] => BinaryOp::LogicOp(LogicOp::Or),")
 PY
 rc=0
 for p in ${*:-C01 C02 C03 C05 C06 C07 C08 C09 C11 C12 C13 C14 C15 C19 C20}; do
